@@ -72,25 +72,95 @@ NONNEG_HALF = {
     'daun-nonneg-deg2': "lambda X, dr: abel.daun.daun_transform(X, reg='nonneg', degree=2, dr=dr, basis_dir=None, verbose=False)",
 }
 
-SNIP_HALF = SNIP_HEAD + '''
-name, clause, n, rows, dr, seed, a, b, expo = %(name)r, %(clause)r, %(n)d, %(rows)d, %(dr)r, %(seed)d, %(a)r, %(b)r, %(expo)d
+# The clauses for a half-image transform f(X, dr); used verbatim by the check and by the replay.
+#   operator     T(X) = X.A with A extracted from the unit rows               (linear methods)
+#   linear       T(aX+bY) = aT(X)+bT(Y), coefficients of both signs            (linear methods)
+#   rows         permuting / flipping / duplicating / replacing / deleting other rows leaves a row's output unchanged
+#   near-rows    rows that differ from their neighbour by ~1e-6 (and ~1e-9) relative are transformed independently
+#   dr           T_dr = dr^(+-1) T_1, on the first call AND on repeated calls with the same parameters (cache hits),
+#                and dr = 1 is still right afterwards
+#   scale        T(2^k X) = 2^k T(X) for k = -40, -20, 20, 40 (exact powers of two)
+CHECK_SRC = '''
+def half_check(f, clause, n, rows, dr, seed, a, b, expo, nonneg, TOL):
+    raw = lambda X, dr=1.0: A2(f(np.array(X, dtype=float), dr))      # no cache reset
+    def T(X, dr=1.0):
+        fresh()
+        return raw(X, dr)
+    rng = np.random.default_rng(seed)
+    X = rng.normal(size=(rows, n)) * 10; Y = rng.normal(size=(rows, n)) * 10
+    if nonneg:
+        X[::2] = np.abs(X[::2])                      # some rows with a mostly non-zero solution
+    mx = float(np.max(np.abs(X)))
+    TX = T(X)
+    if nonneg:
+        norm = max(float(np.max(np.abs(TX))) / mx, 1.0); tol = 1e-9 * norm
+        if TX.min() < -1e-9 * np.abs(TX).max():
+            return float('inf'), tol, norm          # a non-negativity solver returned a negative value
+    else:
+        A = T(np.eye(n))                             # operator extraction: row i of T(I) is e_i.A
+        norm = float(np.max(np.sum(np.abs(A), axis=0))); tol = TOL * norm
+    if clause == 'operator':
+        d = dev(TX, X.dot(A)) / mx
+    elif clause == 'linear':
+        d = dev(T(a * X + b * Y), a * TX + b * T(Y)) / (abs(a) * mx + abs(b) * float(np.max(np.abs(Y))))
+    elif clause == 'rows':
+        perm = rng.permutation(rows); i = int(perm[0])
+        Z = X.copy(); Z[np.arange(rows) != i] = Y[np.arange(rows) != i] * 1e3
+        d = max(dev(T(X[perm])[0], TX[i]), dev(T(X[[i, i]])[1], TX[i]), dev(T(Z)[i], TX[i]), dev(T(X[i:])[0], TX[i]),
+                dev(T(X[::-1])[::-1], TX), dev(T(X[perm]), TX[perm])) / mx
+    elif clause == 'near-rows':
+        x = X[0]
+        Z = np.array([x, x * (1 + 1e-6 * rng.normal(size=n)), x + 1e-9 * mx * rng.normal(size=n), x, x * (1 - 3e-7), -x, x * (1 + 1e-6)])
+        TZ = T(Z)
+        d = max(dev(TZ[k], T(Z[[k]])[0]) for k in range(len(Z))) / mx
+        if not nonneg:      # the small differences themselves must be transformed, not dropped
+            d = max(d, dev(TZ[1] - TZ[0], T(np.array([Z[1] - Z[0]]))[0]) / mx, dev(TZ[6] - TZ[0], 1e-6 * TZ[0]) / mx)
+    elif clause == 'dr':
+        s = dr ** expo
+        fresh()
+        r1 = raw(X, dr); r2 = raw(X, dr); r3 = raw(Y, dr); r4 = raw(X, 1.0); r5 = raw(X, dr)
+        TY = T(Y)
+        d = max(dev(r1, s * TX), dev(r2, s * TX), dev(r3, s * TY), dev(r4, TX), dev(r5, s * TX)) / (mx * max(s, 1.0))
+    elif clause == 'scale':
+        d = 0.0
+        for k in (-40, -20, 20, 40):
+            lam = 2.0 ** k
+            d = max(d, dev(T(lam * X), lam * TX) / (lam * mx))
+    elif clause == 'homogeneous':
+        d = dev(T(a * X), a * TX) / (a * mx)
+    return d, tol, norm
+'''
+
+SNIP_HALF = SNIP_HEAD + CHECK_SRC + '''
+name, clause, n, rows, dr, seed, a, b, expo, nonneg = %(name)r, %(clause)r, %(n)d, %(rows)d, %(dr)r, %(seed)d, %(a)r, %(b)r, %(expo)d, %(nonneg)r
 f = %(fn)s
-T = lambda X, dr=1.0: (fresh(), A2(f(np.array(X, dtype=float), dr)))[1]
-rng = np.random.default_rng(seed)
-X = rng.normal(size=(rows, n)) * 10; Y = rng.normal(size=(rows, n)) * 10
-A = T(np.eye(n))                                  # operator extraction: row i of T(I) is e_i.A
-norm = float(np.max(np.sum(np.abs(A), axis=0)))
-tol = %(tol)r * norm
-if clause == 'operator':      d = dev(T(X), X.dot(A)) / max(float(np.max(np.abs(X))), 1e-300)
-elif clause == 'linear':      d = dev(T(a * X + b * Y), a * T(X) + b * T(Y)) / (abs(a) * np.max(np.abs(X)) + abs(b) * np.max(np.abs(Y)))
-elif clause == 'rows':
-    perm = rng.permutation(rows); i = int(perm[0])
-    Z = X.copy(); Z[np.arange(rows) != i] = Y[np.arange(rows) != i] * 1e3
-    d = max(dev(T(X[perm])[0], T(X)[i]), dev(T(X[[i, i]])[1], T(X)[i]), dev(T(Z)[i], T(X)[i]), dev(T(X[i:])[0], T(X)[i])) / float(np.max(np.abs(X)))
-elif clause == 'dr':          d = dev(T(X, dr), dr**expo * T(X, 1.0)) / (float(np.max(np.abs(X))) * dr**expo)
-elif clause == 'homogeneous': d = dev(T(a * X), a * T(X)) / (a * float(np.max(np.abs(X)))); tol = 1e-8 * max(norm, 1.0)
+d, tol, norm = half_check(f, clause, n, rows, dr, seed, a, b, expo, nonneg, %(tol)r)
 print('%%s n=%%d clause=%%s: deviation %%.3e x max|input| (tolerance %%.3e)' %% (name, n, clause, d, tol))
 sys.exit(0 if d <= tol else 1)
+'''
+
+# abel.Transform on a whole image with a pixel size: name -> (source of lambda IM, dr, dr exponent)
+TRANSFORM_DR = {}
+for _m, _opt, _dirs in (('basex', 'basis_dir=None, verbose=False, ', ('forward', 'inverse')),
+                        ('daun', 'basis_dir=None, verbose=False, ', ('forward', 'inverse')),
+                        ('hansenlaw', '', ('forward', 'inverse')), ('direct', "backend='python', ", ('forward', 'inverse')),
+                        ('onion_bordas', '', ('inverse',)), ('three_point', 'basis_dir=None, ', ('inverse',)),
+                        ('two_point', 'basis_dir=None, ', ('inverse',)), ('onion_peeling', 'basis_dir=None, ', ('inverse',))):
+    for _d in _dirs:
+        TRANSFORM_DR['Transform-%s-%s-dr' % (_m, _d)] = (
+            "lambda IM, dr: abel.Transform(IM, method=%r, direction=%r, transform_options=dict(%sdr=dr)).transform" % (_m, _d, _opt),
+            1 if _d == 'forward' else -1)
+
+SNIP_TDR = SNIP_HEAD + '''
+name, size, dr, seed, expo, rtol = %(name)r, %(size)d, %(dr)r, %(seed)d, %(expo)d, %(rtol)r
+f = %(fn)s
+X = np.random.default_rng(seed).normal(size=(size, size)) * 10
+fresh(); T1 = np.asarray(f(X, 1.0)); fresh()
+r1 = np.asarray(f(X, dr)); r2 = np.asarray(f(X, dr))            # second call: cached matrices
+s = dr ** expo
+d = max(dev(r1, s * T1), dev(r2, s * T1)); scale = s * float(np.max(np.abs(T1)))
+print('%%s %%dx%%d dr=%%r: whole-image result deviates from dr^%%d x (dr=1 result) by %%.3e (scale %%.3e)' %% (name, size, size, dr, expo, d, scale))
+sys.exit(0 if d <= rtol * scale else 1)
 '''
 
 # ---------------------------------------------------------------------------
@@ -168,6 +238,7 @@ T = lambda IM: (fresh(), np.asarray(f(np.array(IM, dtype=float)), dtype=float))[
 rng = np.random.default_rng(seed)
 X = rng.normal(size=(size, size)) * 10; Y = rng.normal(size=(size, size)) * 10
 if clause == 'homogeneous':
+    X = np.abs(X)
     TX = T(X); d = dev(T(a * X), a * TX); scale = a * float(np.max(np.abs(TX)))
 else:
     TX, TY = T(X), T(Y); d = dev(T(a * X + b * Y), a * TX + b * TY)
@@ -296,87 +367,74 @@ def search(ctx, rng, enlarged):
         worst[group] = max(worst.get(group, 0.0), d / tol if tol > 0 else float('inf'))
 
     with ac.quiet():
-        # ---- half-image methods ---------------------------------------------------
-        for name, (src, expo) in HALF.items():
+        # ---- half-image methods (linear) and the NNLS solvers -------------------------
+        gl = dict(g, A2=A2, dev=dev, fresh=fresh)
+        exec(CHECK_SRC, gl)
+        half_check = gl['half_check']
+        for table, nonneg in ((HALF, False), (NONNEG_HALF, True)):
+            for name, entry in table.items():
+                src, expo = entry if not nonneg else (entry, -1)
+                f = eval(src, g)
+                for n in (sizes if not nonneg else sizes[:3]):
+                    if name.startswith('direct') and n > 64:
+                        continue
+                    seed = seed0 + n
+                    rows = 3 + n % 2
+                    a, b = (-1.7, 0.6) if n % 2 else (2.5, -3.25)
+                    clauses = [('rows', 1.0), ('near-rows', 1.0), ('scale', 1.0)] + [('dr', dr) for dr in drs]
+                    if nonneg:
+                        clauses += [('homogeneous', 0.3), ('homogeneous', 7.0)]
+                    else:
+                        clauses = [('operator', 1.0), ('linear', 1.0)] + clauses
+                    res = {}
+                    for clause, par in clauses:
+                        dr = par if clause == 'dr' else 1.0
+                        aa = par if clause == 'homogeneous' else a
+                        try:
+                            d, tol, norm = half_check(f, clause, n, rows, dr, seed, aa, b, expo, nonneg, TOL)
+                        except Exception as ex:     # noqa
+                            d, tol, norm = float('inf'), 0.0, 0.0
+                        label = clause if clause not in ('dr', 'homogeneous') else '%s=%r' % (clause, par)
+                        res[label] = d
+                        n_eval += 1
+                        distinct.add((name, n, label))
+                        note('nonneg' if nonneg else name.split('-')[0], d, tol)
+                        if not d <= tol:
+                            hits.append(Hit(clause, 'C04:%s:%s' % (name, clause),
+                                            '%s, n=%d: clause %s deviates by %.2e x max|input| (tolerance %.2e, operator norm %.2e)'
+                                            % (name, n, label, d, tol, norm),
+                                            SNIP_HALF % dict(name=name, clause=clause, n=n, rows=rows, dr=dr, seed=seed, a=aa, b=b,
+                                                             expo=expo, fn=src, tol=TOL, nonneg=nonneg),
+                                            dict(method=name, n=n, clause=label, deviation=d, tolerance=tol)))
+                    if len(samples) < 5 and n == sizes[1]:
+                        samples.append(dict(method=name, n=n, rows=rows, a=a, b=b, deviations=res))
+        # ---- abel.Transform on a whole image with a pixel size (cache hits inside one call) ----
+        for name, (src, expo) in TRANSFORM_DR.items():
             f = eval(src, g)
-
-            def T(X, dr=1.0, f=f):
-                fresh()
-                return A2(f(np.array(X, dtype=float), dr))
-            for n in sizes:
-                if name.startswith('direct') and n > 64:
-                    continue
-                seed = seed0 + n
-                r2 = np.random.default_rng(seed)
-                rows = 3 + n % 2
-                X = r2.normal(size=(rows, n)) * 10
-                Y = r2.normal(size=(rows, n)) * 10
-                a, b = (-1.7, 0.6) if n % 2 else (2.5, -3.25)
-                checks = {}
-                try:
-                    A = T(np.eye(n))
-                    norm = float(np.max(np.sum(np.abs(A), axis=0)))
-                    tol = TOL * norm
-                    TX = T(X)
-                    mx = float(np.max(np.abs(X)))
-                    checks['operator'] = dev(TX, X.dot(A)) / mx
-                    checks['linear'] = dev(T(a * X + b * Y), a * TX + b * T(Y)) / (abs(a) * mx + abs(b) * float(np.max(np.abs(Y))))
-                    perm = r2.permutation(rows)
-                    i = int(perm[0])
-                    Z = X.copy()
-                    Z[np.arange(rows) != i] = Y[np.arange(rows) != i] * 1e3
-                    checks['rows'] = max(dev(T(X[perm])[0], TX[i]), dev(T(X[[i, i]])[1], TX[i]), dev(T(Z)[i], TX[i]),
-                                         dev(T(X[i:])[0], TX[i])) / mx
-                    for dr in drs:
-                        checks['dr=%r' % dr] = dev(T(X, dr), dr**expo * TX) / (mx * dr**expo)
-                except Exception as ex:     # noqa
-                    checks['exception:' + type(ex).__name__] = float('inf')
-                    tol = 0.0
-                    norm = 0.0
-                for clause, d in checks.items():
-                    n_eval += 1
-                    distinct.add((name, n, clause))
-                    note(name.split('-')[0], d, tol)
-                    if not d <= tol:
-                        cl = clause.split('=')[0]
-                        dr = float(clause.split('=')[1]) if cl == 'dr' else 1.0
-                        hits.append(Hit(cl if not cl.startswith('exception') else 'runs', 'C04:%s:%s' % (name, cl),
-                                        '%s, n=%d: clause %s deviates by %.2e x max|input| (tolerance %.2e, operator norm %.2e)'
-                                        % (name, n, clause, d, tol, norm),
-                                        SNIP_HALF % dict(name=name, clause=cl if not cl.startswith('exception') else 'operator', n=n, rows=rows,
-                                                         dr=dr, seed=seed, a=a, b=b, expo=expo, fn=src, tol=TOL),
-                                        dict(method=name, n=n, clause=clause, deviation=d, tolerance=tol)))
-                if len(samples) < 5 and n == sizes[1]:
-                    samples.append(dict(method=name, n=n, rows=rows, a=a, b=b, operator_norm=norm,
-                                        deviations={k: v for k, v in checks.items()}))
-        # ---- NNLS: positive homogeneity (half-image) -----------------------------------
-        for name, src in NONNEG_HALF.items():
-            f = eval(src, g)
-            for n in sizes[:3]:
-                seed = seed0 + n
-                X = np.random.default_rng(seed).normal(size=(2, n)) * 10
-                for lam in (0.3, 7.0):
+            for size in full_sizes[:2]:
+                for dr in drs[:2]:
+                    seed = seed0 + size
+                    X = np.random.default_rng(seed).normal(size=(size, size)) * 10
                     try:
                         fresh()
-                        TX = A2(f(X, 1.0))
+                        T1 = np.asarray(f(X, 1.0), dtype=float)
                         fresh()
-                        TL = A2(f(lam * X, 1.0))
-                        d = dev(TL, lam * TX) / (lam * float(np.max(np.abs(X))))
-                        tol = 1e-8 * max(float(np.max(np.abs(TX))) / float(np.max(np.abs(X))), 1.0)
-                        # and NOT silently linear-by-clipping: the result must be non-negative
-                        if TX.min() < -1e-9 * np.abs(TX).max():
-                            d = float('inf')
-                    except Exception as ex:   # noqa
-                        d, tol = float('inf'), 0.0
+                        r1 = np.asarray(f(X, dr), dtype=float)
+                        r2 = np.asarray(f(X, dr), dtype=float)
+                        sc = dr ** expo
+                        d = max(dev(r1, sc * T1), dev(r2, sc * T1))
+                        scale = sc * float(np.max(np.abs(T1)))
+                    except Exception as ex:    # noqa
+                        d, scale = float('inf'), 1.0
                     n_eval += 1
-                    distinct.add((name, n, lam))
-                    note('nonneg', d, tol)
-                    if not d <= tol:
-                        hits.append(Hit('homogeneous', 'C04:%s:homogeneous' % name,
-                                        '%s n=%d: T(%g X) differs from %g T(X) by %.2e x max|input| (or a negative output)' % (name, n, lam, lam, d),
-                                        SNIP_HALF % dict(name=name, clause='homogeneous', n=n, rows=2, dr=1.0, seed=seed, a=lam, b=0.0,
-                                                         expo=-1, fn=src.replace('lambda X, dr:', 'lambda X, dr:'), tol=TOL),
-                                        dict(method=name, n=n, factor=lam, deviation=d)))
+                    distinct.add((name, size, dr))
+                    note('Transform-dr', d, RTOL_FULL * scale)
+                    if not d <= RTOL_FULL * scale:
+                        hits.append(Hit('dr', 'C04:%s' % name,
+                                        '%s on a %dx%d image, dr=%r: result is not dr^%d x the dr=1 result (deviation %.2e, scale %.2e)'
+                                        % (name, size, size, dr, expo, d, scale),
+                                        SNIP_TDR % dict(name=name, size=size, dr=dr, seed=seed, expo=expo, rtol=RTOL_FULL, fn=src),
+                                        dict(operator=name, size=size, dr=dr, deviation=d, scale=scale)))
         # ---- full-image operators, Transform level, image tools ---------------------------
         for table, clause in ((FULL, 'linear'), (NONNEG_FULL, 'homogeneous')):
             for name, src in table.items():
@@ -391,6 +449,8 @@ def search(ctx, rng, enlarged):
                     X = r2.normal(size=(size, size)) * 10
                     Y = r2.normal(size=(size, size)) * 10
                     a, b = (-1.7, 0.6) if clause == 'linear' else (3.5, 0.0)
+                    if clause == 'homogeneous':
+                        X = np.abs(X)
                     rtol = RTOL_FULL if clause == 'linear' else 1e-7
                     try:
                         if clause == 'linear':
@@ -399,8 +459,13 @@ def search(ctx, rng, enlarged):
                             scale = abs(a) * float(np.max(np.abs(TX))) + abs(b) * float(np.max(np.abs(TY)))
                         else:
                             TX = TF(X)
-                            d = dev(TF(a * X), a * TX)
-                            scale = a * float(np.max(np.abs(TX)))
+                            d, scale, worst_ratio = 0.0, a * float(np.max(np.abs(TX))), -1.0
+                            for lam in (3.5, 2.0 ** -40, 2.0 ** -20, 2.0 ** 40):     # the worst factor is reported
+                                dl = dev(TF(lam * X), lam * TX)
+                                sl = lam * float(np.max(np.abs(TX)))
+                                ratio = dl / sl if sl > 0 else (0.0 if dl == 0 else float('inf'))
+                                if ratio > worst_ratio:
+                                    worst_ratio, d, scale, a = ratio, dl, sl, lam
                     except Exception as ex:    # noqa
                         d, scale = float('inf'), 1.0
                     n_eval += 1
@@ -448,7 +513,9 @@ def run(ctx):
     ctx.cov.update(evaluations=n_eval + tv_n + len(hl_meta), distinct_nontrivial=n_distinct, exhaustive=False,
                    rule='a case is distinct by (operator family = method x direction x option set, size, clause); clauses: operator '
                         '(T(X) = X.A with A extracted from the unit rows), linear (a,b of both signs), rows (permute / duplicate / replace / '
-                        'delete other rows), dr (0.25, 2.5[, 0.7]); data: normal*10, signed, non-smooth',
+                        'delete / flip other rows), near-rows (neighbouring rows differing by 1e-6 / 1e-9 relative are transformed independently), dr (0.25, 2.5[, 0.7]; '
+                        'first call, repeated calls with the same parameters = cache hits, back to dr=1; also abel.Transform on a whole image), '
+                        'scale (2^-40 .. 2^40); the NNLS solvers get rows / near-rows / scale / dr / homogeneous; data: normal*10, signed, non-smooth',
                    samples=samples, worst_deviation_over_tolerance=worst,
                    input_distribution=dict(half_image_families=len(HALF), full_image_families=len(FULL),
                                            nonneg_families=len(NONNEG_HALF) + len(NONNEG_FULL),
